@@ -258,6 +258,9 @@ func buildScript(seed uint64, p *ScriptPlan) (*built, error) {
 			}
 		}
 	}
+	if m := hasMut(p.Mutations, "inner-edge"); m != nil {
+		innerEdge(inner, m.A)
+	}
 	if m := hasMut(p.Mutations, "inner-versions-remnant"); m != nil {
 		// supported_versions of the inner hello: TLS 1.3 first, then a stray
 		// octet (every enclosing length is consistent)
@@ -561,6 +564,16 @@ func buildScript(seed uint64, p *ScriptPlan) (*built, error) {
 		}
 	}
 	s, err := echbox.NewSealer(sealPub, sealCfg, sealID, sealSuite)
+	if m := hasMut(p.Mutations, "low-order-enc"); m != nil && err == nil {
+		// encrypted "to nobody": the encapsulated key is a point of small order
+		// and the payload is sealed under the key schedule that results when the
+		// receiver's X25519 result is taken to be empty or all zeros - everything
+		// in it is public
+		points := [][]byte{make([]byte, 32), append([]byte{1}, make([]byte, 31)...),
+			{0xe0, 0xeb, 0x7a, 0x7c, 0x3b, 0x41, 0xb8, 0xae, 0x16, 0x56, 0xe3, 0xfa, 0xf1, 0x9f, 0xc4, 0x6a, 0xda, 0x09, 0x8d, 0xeb, 0x9c, 0x32, 0xb1, 0xfd, 0x86, 0x62, 0x05, 0x16, 0x5f, 0x49, 0xb8, 0x00}}
+		dhs := [][]byte{nil, make([]byte, 32)}
+		s, err = echbox.NewForgedSealer(dhs[m.B%2], points[m.A%3], tpub, sealCfg, sealID, sealSuite)
+	}
 	if err != nil {
 		return nil, err
 	}
@@ -1059,4 +1072,37 @@ func tlsView(rec []byte) (name string, protos []string, ok bool) {
 	}}
 	tls.Server(sc, cfg).HandshakeContext(context.Background())
 	return
+}
+
+// innerEdge makes one field of an inner hello degenerate while every enclosing
+// length stays consistent (C08: whatever the Conn then decides, it must not
+// panic, spin or balloon on it - the payload is authentic).
+func innerEdge(inner *echbox.Hello, a int) {
+	set := func(t uint16, d []byte) {
+		if i := inner.Find(t); i >= 0 {
+			inner.Exts[i].Data = d
+		} else {
+			inner.Exts = append(inner.Exts, echbox.Ext{Type: t, Data: d})
+		}
+	}
+	bodies := [][]byte{{}, {0}, {0, 0}, {0, 1, 0}, {0, 3, 0, 0, 0}, {0, 2, 1, 0}, {1, 0}, {0xff, 0xff}}
+	switch a % 8 {
+	case 0:
+		inner.Compression = nil
+	case 1:
+		inner.CipherSuites = nil
+	case 2:
+		inner.CipherSuites = []byte{0x13}
+	case 3:
+		inner.Compression = []byte{1, 0, 64}
+	case 4:
+		set(echbox.ExtSNI, bodies[(a/8)%len(bodies)])
+	case 5:
+		set(16, bodies[(a/8)%len(bodies)])
+	case 6:
+		set(echbox.ExtVersions, bodies[(a/8)%len(bodies)])
+	case 7:
+		inner.Random = inner.Random[:min(len(inner.Random), 32)]
+		set(echbox.ExtECH, bodies[(a/8)%len(bodies)])
+	}
 }
